@@ -69,3 +69,7 @@ impl From<LinesCodecError> for HErr {
 pub fn verif_str_plus(a: String, b: &str) -> (r: String)
     ensures r@ == a@ + b@
 { a + b }
+impl From<String> for HErr {
+    #[verifier::external_body]
+    fn from(e: String) -> HErr { HErr { k: 0 } }
+}
